@@ -3,7 +3,7 @@ import ast
 
 from ..core import (AnalysisError, FuncTypes, unparse, short, canon, canon_call, base_name, own_nodes,
                     docstring_free)
-from ..ratfun import RF, Evaluator, Inconclusive, opaque, sym_pow, reduce_relations
+from ..ratfun import RF, Evaluator, Inconclusive, opaque, sym_pow, reduce_relations, OPAQUE_ARGS
 from ..pathrf import enumerate_paths, PathLimit
 from .. import e4
 
@@ -28,9 +28,14 @@ UNDECIDED = ["monotone magnitude response", "numeric pole radius < 1 over the wh
 LF, LAu, LA = "lazy_filters", "lazy_auditory", "lazy_analysis"
 
 
+STRATEGIES = {}        # (dict name, strategy name) -> function node: filled by run() from the tree under analysis
+DOMAIN = []            # [(node, argument RF)] of every acos(..) met while evaluating
+
+
 class DesignEval(Evaluator):
     def __init__(self, env):
         Evaluator.__init__(self, env)
+        self.callee_env = {}
 
     def ev(self, e):
         # Stream arm: an element-wise zero guard over X - (el if el else 1 for el in X), xmap(lambda el: el or 1, X) -
@@ -44,7 +49,107 @@ class DesignEval(Evaluator):
         name = unparse(e.func)
         if name == "thub" and len(e.args) == 2:
             return self.ev(e.args[0])
+        if name == "acos" and len(e.args) == 1 and not e.keywords:
+            a = self.ev(e.args[0])
+            DOMAIN.append((e, a))
+            return opaque("acos", a)
+        if name in ("cos", "sin") and len(e.args) == 1 and not e.keywords:
+            a = self.ev(e.args[0])
+            sy = a.simplified()
+            if len(sy.n) == 1 and sy.d == {(): 1}:
+                (m, c), = sy.n.items()
+                if c == 1 and len(m) == 1 and m[0][1] == 1 and OPAQUE_ARGS.get(m[0][0], ("",))[0] == "acos":
+                    inner = OPAQUE_ARGS[m[0][0]][1][0]
+                    # cos(acos(X)) = X ; sin(acos(X)) = sqrt(1 - X^2)   (for X in [-1, 1]: rule C13.domain)
+                    return inner if name == "cos" else opaque("sqrt", 1 - inner * inner)
+            return opaque(name, a)
+        if isinstance(e.func, ast.Attribute) and isinstance(e.func.value, ast.Name) \
+                and (e.func.value.id, e.func.attr) in STRATEGIES and not e.keywords \
+                and not any(isinstance(a_, ast.Starred) for a_ in e.args):
+            # one design written in terms of another: the callee's single path with the arguments bound
+            callee = STRATEGIES[(e.func.value.id, e.func.attr)]
+            pars = [a_.arg for a_ in callee.args.args]
+            if len(pars) != len(e.args) or callee.args.vararg or callee.args.kwarg:
+                raise Inconclusive("call %s" % unparse(e))
+            key = (e.func.value.id, e.func.attr)
+            if key in _ACTIVE:
+                raise Inconclusive("recursive design %s.%s" % key)
+            _ACTIVE.add(key)
+            try:
+                paths = design_paths(callee, bind=dict(zip(pars, [self.ev(a_) for a_ in e.args])))
+            finally:
+                _ACTIVE.discard(key)
+            if len(paths) != 1:
+                raise Inconclusive("%d paths in the design %s.%s called here" % ((len(paths),) + key))
+            val, cenv, _, _ = paths[0]
+            for k_, v_ in cenv.items():
+                if k_ not in pars:
+                    self.callee_env.setdefault(k_, v_)
+            return val
         return Evaluator.call(self, e)
+
+
+_ACTIVE = set()
+
+
+def _acos_domain(arg):
+    """True: |arg| <= 1 proved; False: |arg| > 1 for some admissible inputs proved; None: neither.
+    arg = c * k with c one cos(..) symbol and k a ratio of polynomials, with positive coefficients, in one symbol R > 0"""
+    cs = [s_ for s_ in arg.symbols() if OPAQUE_ARGS.get(s_, ("",))[0] == "cos"]
+    if len(cs) != 1:
+        return None
+    k = (arg / RF.sym(cs[0])).simplified()
+    if cs[0] in k.symbols() or len(k.symbols()) != 1:
+        return None
+    (r,) = k.symbols()
+    if OPAQUE_ARGS.get(r, ("",))[0] != "exp":
+        return None
+
+    def uni(rf_):
+        """(numerator, denominator) as {exponent: Fraction} in r, negative powers cleared"""
+        sr = rf_.simplified()
+        out = []
+        for poly in (sr.n, sr.d):
+            d_ = {}
+            for m, c in poly.items():
+                if any(s_ != r for s_, _ in m):
+                    return None
+                d_[dict(m).get(r, 0)] = d_.get(dict(m).get(r, 0), 0) + c
+            out.append(d_)
+        lo = min([e_ for d_ in out for e_ in d_] + [0])
+        return [{e_ - lo: c for e_, c in d_.items() if c != 0} for d_ in out]
+
+    def positive(poly):
+        return bool(poly) and all(c > 0 for c in poly.values())
+
+    def square(rf_):
+        """numerator a perfect square (degree <= 2 in r, not identically zero), denominator positive for r > 0"""
+        u = uni(rf_)
+        if u is None or not u[0]:
+            return False
+        co, dn = u
+        if not positive(dn):
+            if not (dn and all(c < 0 for c in dn.values())):
+                return False
+            co = {e_: -v_ for e_, v_ in co.items()}
+        lo = min(co)
+        if lo % 2:
+            return False
+        co = {e_ - lo: v_ for e_, v_ in co.items()}      # r^lo (lo even) is itself a square
+        if not set(co) <= {0, 1, 2}:
+            return False
+        a_, b_, c_ = co.get(2, 0), co.get(1, 0), co.get(0, 0)
+        if a_ == 0 and b_ == 0:
+            return c_ > 0
+        return a_ > 0 and c_ > 0 and b_ * b_ == 4 * a_ * c_
+    uk = uni(k)
+    if uk is None or not (positive(uk[0]) and positive(uk[1])):
+        return None
+    if square(1 - k):
+        return True
+    if square(k - 1):
+        return False
+    return None
 
 
 def _guard_source(e):
@@ -67,7 +172,7 @@ def _guard_source(e):
     return None
 
 
-def design_paths(fn, iterable=False):
+def design_paths(fn, iterable=False, bind=None):
     """[(return RF, env)] over the loop-free paths of a design strategy, z = x^-1."""
     x = RF.sym("x")
 
@@ -80,14 +185,24 @@ def design_paths(fn, iterable=False):
     def assign(st, env):
         env = dict(env)
         if isinstance(st, ast.Assign) and len(st.targets) == 1 and isinstance(st.targets[0], ast.Name):
-            env[st.targets[0].id] = DesignEval(env).ev(st.value)
+            de = DesignEval(env)
+            env[st.targets[0].id] = de.ev(st.value)
+            for k_, v_ in de.callee_env.items():
+                env.setdefault(k_, v_)
             return env
         raise Inconclusive("statement %s" % unparse(st))
     out = []
     from ..equiv import desugar_conditionals
-    for kind, st, env, trail in enumerate_paths(desugar_conditionals(docstring_free(fn.body)), {"z": x ** -1}, oracle, assign):
+    env0 = {"z": x ** -1}
+    env0.update(bind or {})
+    for kind, st, env, trail in enumerate_paths(desugar_conditionals(docstring_free(fn.body)), env0, oracle, assign):
         if kind == "return":
-            out.append((DesignEval(env).ev(st.value), env, st, trail))
+            de = DesignEval(env)
+            val = de.ev(st.value)
+            if de.callee_env:
+                # the locals of the design this one is written in terms of (gain, denominator ...), where it has none
+                env = dict(de.callee_env, **env)
+            out.append((val, env, st, trail))
     return out
 
 
@@ -151,6 +266,13 @@ def run(chk, repo):
     fmod = repo.mod(LF)
     WF = lambda q: "%s:%s" % (fmod.relpath, q)
     x = RF.sym("x")
+    STRATEGIES.clear()
+    del DOMAIN[:]
+    for dn_ in ("lowpass", "highpass", "resonator"):
+        for st_ in repo.strategies_of(LF, dn_):
+            if st_.kind == "def":
+                for nm_ in st_.names:
+                    STRATEGIES[(dn_, nm_)] = st_.node
 
     # ------------------------------------------------------------ hub budgets
     chk.rule("R4.1", "every thub(x, n) is used at most n times on every path (more: IndexError 'no more copies' as soon "
@@ -201,7 +323,7 @@ def run(chk, repo):
                 nh += 1
                 chk.decide(b is not None and e4.nonneg(b - 1), "R4.1", W, "inline hub %s used once" % short(ih),
                            why="budget below the single use", node=ih)
-    chk.floor("R4.1", nthub, 30, "thub call sites in design strategies")
+    chk.floor("R4.1", nthub, 24, "thub call sites in design strategies")
     chk.floor("R4.1", nh, 60, "budget obligations")
 
     # -------------------------------------------------------------- DC / Nyquist
@@ -420,6 +542,27 @@ def run(chk, repo):
                 chk.decide(g is not None and num == g and "x" not in g.symbols(), "C13.resonator", W,
                            "constant numerator (poles only): H * denominator == gain",
                            why="pole-only resonator must have a constant numerator", node=rst)
+
+    # ------------------------------------------------------------------ domains
+    chk.rule("C13.domain", "an angle recovered with acos(cos(w) * k), k a ratio of polynomials in the pole radius R in "
+                           "(0, 1): 1 - k is a square over a positive polynomial (so |cos(w) * k| <= 1 for every frequency "
+                           "and bandwidth); when k - 1 is one instead, the argument leaves [-1, 1] near w = 0 and the design "
+                           "raises 'math domain error' where the documented formula is defined")
+    seen_dom = set()
+    for node_, arg_ in list(DOMAIN):
+        k_ = (getattr(node_, "lineno", 0), arg_.key())
+        if k_ in seen_dom:
+            continue
+        seen_dom.add(k_)
+        verdict = _acos_domain(arg_)
+        Wd = WF("line %d" % getattr(node_, "lineno", 0))
+        if verdict is None:
+            chk.defer("%s: domain of %s not decided by the square test" % (Wd, short(node_)))
+        else:
+            chk.decide(verdict, "C13.domain", Wd, "%s stays in [-1, 1]" % short(node_),
+                       why="the factor of the cosine is at least 1 for every bandwidth (k - 1 is a square over a positive "
+                           "polynomial in R): acos raises ValueError for frequencies near 0 or pi, where the documented "
+                           "design still has a stable, unit-gain filter", node=node_)
 
     # --------------------------------------------------------------------- comb
     chk.rule("C13.comb", "comb.fb = 1/(1 - alpha z^-delay); comb.tau the same with alpha = e^(-delay/tau); comb.ff = "
